@@ -2,6 +2,7 @@
 From Coq Require Import NArith ZArith List Bool Lia.
 Import ListNotations.
 Require Import Base Lex Jamo.
+Require GenParse.
 Open Scope N_scope.
 
 Definition is_hangul (c:N) : bool :=
@@ -31,7 +32,34 @@ Proof.
   apply andb_true_iff in H. destruct H as [H1 H2].
   destruct (N.eq_dec c n) as [->|Hne]; auto. apply IHn; auto. lia.
 Qed.
+(* above the Basic Multilingual Plane nothing is Hangul: decided symbolically, so the exhaustive sweep stops at 0x10000 *)
+Lemma and_high lo hi c : hi < 0x10000 -> 0x10000 <= c -> (lo <=? c) && (c <=? hi) = false.
+Proof. intros. destruct (N.leb_spec c hi); [lia|]. apply andb_false_r. Qed.
+Lemma eqb_high k c : k < 0x10000 -> 0x10000 <= c -> (c =? k) = false.
+Proof. intros. apply N.eqb_neq. lia. Qed.
+Lemma high_is_separator c : 0x10000 <= c -> ok c = true.
+Proof.
+  intros H. unfold ok, free, normalize, nfd, spec_char, is_hangul, in_r.
+  rewrite !and_high by (try exact H; reflexivity). cbn [negb andb orb flat_map app].
+  unfold GenParse.gen_normalize_char. rewrite !and_high by (try exact H; reflexivity). cbn [existsb].
+  rewrite !eqb_high by (try exact H; reflexivity). reflexivity.
+Qed.
 (* used by the failing-input search when the theorem below does not check *)
 Definition bad_points (n:N) (f:N->bool) : list N :=
   snd (N.iter n (fun p => (N.succ (fst p), if f (fst p) then snd p else fst p :: snd p)) (0, [])).
 
+
+(* ---- the TypeScript twin (pbhhg_js/src/parse.ts, regenerated into Gen/GenTS.v): no NFD, one UTF-16 unit at a time ---- *)
+Require GenTS.
+Definition ok_ts (c:N) : bool := free c || leqb (collapse (GenTS.ts_normalize_char c)) (spec_char c).
+(* a surrogate half is a separator, so an astral character (two halves) collapses to one separator: same as spec_char *)
+Definition surrogate (c:N) : bool := in_r c 0xD800 0xDFFF.
+
+(* ---- shape of the table entries: digit* (sp (ieung|hieuh) digit* )*  (used by the tokenizer / parser theorems) ---- *)
+Definition is_digit (c:N) : bool := existsb (N.eqb c) GenParse.gen_digits.
+Fixpoint word_ok (l:list N) : bool :=
+  match l with
+  | [] => true
+  | 32 :: c :: r => ((c =? 12615) || (c =? 12622)) && word_ok r
+  | c :: r => is_digit c && word_ok r
+  end.
